@@ -21,9 +21,29 @@ def bundled(dest, which="simple"):
                     illumina=os.path.join(dest, names[5]))
     raise ValueError(which)
 
-def run_isoquant(outdir, args, home=None, hashseed="0", env_extra=None, timeout=1800, wrapper=None, repo=None):
+def ensure_reference_index(path):
+    """Build <reference>.fai (and .gzi) once, under a lock, before any run uses the reference.  pyfaidx writes the index next to the
+    FASTA IN PLACE; several harness runs started in parallel on one scratch copy would otherwise race on it (that race is the
+    recorded finding C20:shared-reference-index and must not make OTHER checks flaky)."""
+    import fcntl
+    if not path or not os.path.exists(path): return
+    need = [path + ".fai"] + ([path + ".gzi"] if path.endswith(".gz") else [])
+    if all(os.path.exists(x) and os.path.getmtime(x) >= os.path.getmtime(path) for x in need): return
+    try:
+        with open(path + ".iqv_lock", "w") as lk:
+            fcntl.flock(lk, fcntl.LOCK_EX)
+            if not all(os.path.exists(x) and os.path.getmtime(x) >= os.path.getmtime(path) for x in need):
+                import pyfaidx
+                pyfaidx.Fasta(path).close()
+    except Exception:
+        pass            # not indexable here (e.g. plain gzip): IsoQuant deals with it itself
+
+def run_isoquant(outdir, args, home=None, hashseed="0", env_extra=None, timeout=1800, wrapper=None, repo=None, preindex=True):
     """returns (rc, log_text).  args: list of CLI arguments (without -o)."""
     repo = repo or lib.REPO
+    if preindex:
+        for i, a in enumerate(args[:-1]):
+            if a in ("--reference", "-r"): ensure_reference_index(args[i + 1])
     home = home or os.path.join(os.path.dirname(outdir.rstrip("/")), "home_" + os.path.basename(outdir.rstrip("/")))
     os.makedirs(home, exist_ok=True)
     env = dict(os.environ)
